@@ -385,6 +385,19 @@ def resolveFilters (path : List Vid) (vid : Vid) :
 
 /-! ### edges: parameters and recursion -/
 
+mutual
+/-- `convert_number_to_field_value` on the literal a tree value is written as: the GraphQL text of
+`(u 3)` and of `(i 3)` is `3`, which the frontend reads as `Int64` whenever it fits (`as_i64` is
+tried before `as_u64`). -/
+def normLiteral : Value → Value
+  | .uint64 u => if u.toNat < 2 ^ 63 then .int64 (Int64.ofNat u.toNat) else .uint64 u
+  | .list l => .list (normLiterals l)
+  | v => v
+def normLiterals : List Value → List Value
+  | [] => []
+  | x :: xs => normLiteral x :: normLiterals xs
+end
+
 def insertParam (kv : Name × Value) : Params → Params
   | [] => [kv]
   | x :: xs => if kv.1 < x.1 then kv :: x :: xs else x :: insertParam kv xs
@@ -395,14 +408,15 @@ def declaredParams (explicit : Params) : List ParamDecl → M Params
   | [] => .ok []
   | d :: rest => do
     let v ← match explicit.find? (·.1 == d.name) with
-      | some (_, v) =>
+      | some (_, w) =>
+        let v := normLiteral w
         match d.ty.isValidValue v with
         | some true => pure v
         | some false => .error .invalidEdgeParameterType
         | none => .error .enumParameterUnimplemented
       | none =>
         match d.dflt with
-        | some v => pure v
+        | some v => pure (normLiteral v)
         | none => if d.ty.nullable then pure Value.null else .error .missingRequiredEdgeParameter
     let ps ← declaredParams explicit rest
     pure (insertParam (d.name, v) ps)
